@@ -492,8 +492,11 @@ func rtGvar(r *Rng, t *rtTable, opts, qs []Sx) ([]Sx, []Sx) {
 		gv.List = append(gv.List, S(`[a-z]+-[0-9]+`))
 	}
 	opts = append(opts, gv)
-	t.defs = append(t.defs, L(SL([]string{"GET"}), S("/p/{sku}"), B(false)), L(SL([]string{"GET"}), S("/q/{sku}/{v9}"), B(false)))
-	for _, p := range []string{"/p/ABC-1234", "/p/abc-1234", "/p/ABC-12345", "/q/XYZ-0001/k", "/q/xyz/k"} {
+	// (the path texts are the case's own: something remembered per path text by an earlier case of the run must not hide a defect)
+	k := r.Intn(1000000)
+	pp, qq := fmt.Sprintf("/p%d", k), fmt.Sprintf("/q%d", k)
+	t.defs = append(t.defs, L(SL([]string{"GET"}), S(pp+"/{sku}"), B(false)), L(SL([]string{"GET"}), S(qq+"/{sku}/{v9}"), B(false)))
+	for _, p := range []string{pp + "/ABC-1234", pp + "/abc-1234", pp + "/ABC-12345", qq + "/XYZ-0001/k", qq + "/xyz/k"} {
 		qs = append(qs, L(A(r.Pick([]string{"m", "s"})), S("GET"), S(p)))
 	}
 	return opts, qs
